@@ -655,7 +655,8 @@ class PureInterp:
         from .paths import Hierarchy
         hier = Hierarchy(self.index)
         kind = raised.kind
-        cands = [kind] if "." in kind else [k for k in (f"builtins.{kind}", f"asyncio.{kind}", f"click.{kind}", f"click.exceptions.{kind}") ]
+        cands = [kind] if "." in kind else [k for k in (f"builtins.{kind}", f"asyncio.{kind}", f"click.{kind}", f"click.exceptions.{kind}", f"json.{kind}",
+                                                         f"json.decoder.{kind}", f"subprocess.{kind}", f"concurrent.futures.{kind}")]
         if "." not in kind:
             for ci in self.index.classes.values():
                 if ci.name == kind:
